@@ -255,13 +255,41 @@ def render(t):
     return '\n'.join(L) + '\n'
 
 
+def render_grammar():
+    """the parser rules of prolog.g4 as BNF productions (EBNF expanded by harness/g4.py)"""
+    from . import g4
+    rec = g4.recogniser()
+    rows = []
+    for lhs, alts in rec.by_lhs.items():
+        for alt in alts:
+            syms = []
+            for s in alt:
+                if isinstance(s, tuple):
+                    syms.append('(true, %s)' % lean_str(s[1]))
+                else:
+                    syms.append('(false, %s)' % lean_str(s))
+            rows.append('  (%s, [%s])' % (lean_str(lhs), ', '.join(syms)))
+    return ('/-  GENERATED by harness/extract.py from /repo/src/yldprolog/prolog.g4 (parser rules, EBNF expanded to\n'
+            '    BNF by harness/g4.py) — do not edit. Regenerated on every check run. -/\n'
+            'namespace Yld.Generated\n\n'
+            '/-- productions: (left-hand side, right-hand side); a symbol is (isTerminal, name); terminals are\n'
+            '    token kinds as `Tok.kind` names them -/\n'
+            'def grammar : List (String × List (Bool × String)) := [\n' + ',\n'.join(rows) + '\n]\n\n'
+            'end Yld.Generated\n')
+
+
+def _write_if_changed(path, text):
+    os.makedirs(os.path.dirname(path), exist_ok=True)
+    old = open(path).read() if os.path.exists(path) else None
+    if old != text:
+        with open(path, 'w') as f:
+            f.write(text)
+
+
 def write_tables():
     text = render(tables())
-    os.makedirs(os.path.dirname(OUT), exist_ok=True)
-    old = open(OUT).read() if os.path.exists(OUT) else None
-    if old != text:
-        with open(OUT, 'w') as f:
-            f.write(text)
+    _write_if_changed(OUT, text)
+    _write_if_changed(os.path.join(os.path.dirname(OUT), 'Grammar.lean'), render_grammar())
     return text
 
 
